@@ -1,0 +1,65 @@
+//go:build verif
+// +build verif
+
+package federation
+
+import (
+	"context"
+	"encoding/json"
+
+	"github.com/samsarahq/thunder/graphql"
+	"github.com/samsarahq/thunder/graphql/introspection"
+)
+
+// VerifHook, when set, is called around the accesses to Executor.Executors (build tag verif only). It may block.
+var VerifHook func(point string, args ...interface{})
+
+func vh(point string, args ...interface{}) {
+	if h := VerifHook; h != nil {
+		h(point, args...)
+	}
+}
+
+// VerifPlannerWithSelector does what IntrospectionSchemaSyncer.FetchPlannerAndSchema does, but hands the
+// given ServiceSelector to the planner, so that the verification harness can enumerate which service is
+// picked when several can serve a field (instead of leaving it to map iteration order).
+func VerifPlannerWithSelector(ctx context.Context, executors map[string]ExecutorClient, selector ServiceSelector) (*Planner, *graphql.Schema, error) {
+	schemas := make(map[string]*IntrospectionQueryResult)
+	for server, client := range executors {
+		if server == IntrospectionClientName {
+			continue
+		}
+		resp, err := fetchSchema(ctx, client, nil)
+		if err != nil {
+			return nil, nil, err
+		}
+		var iq IntrospectionQueryResult
+		if err := json.Unmarshal(resp.Result, &iq); err != nil {
+			return nil, nil, err
+		}
+		schemas[server] = &iq
+	}
+	types, err := convertSchema(schemas)
+	if err != nil {
+		return nil, nil, err
+	}
+	introspectionSchema := introspection.BareIntrospectionSchema(types.Schema)
+	schema, err := introspection.RunIntrospectionQuery(introspection.BareIntrospectionSchema(introspectionSchema))
+	if err != nil {
+		return nil, nil, err
+	}
+	var iq IntrospectionQueryResult
+	if err := json.Unmarshal(schema, &iq); err != nil {
+		return nil, nil, err
+	}
+	schemas[IntrospectionClientName] = &iq
+	types, err = convertSchema(schemas)
+	if err != nil {
+		return nil, nil, err
+	}
+	planner, err := NewPlanner(types, selector)
+	if err != nil {
+		return nil, nil, err
+	}
+	return planner, introspection.BareIntrospectionSchema(types.Schema), nil
+}
